@@ -296,11 +296,29 @@ theorem RTAll_step (hpl : 0 < pl) {s : State} (hg : Good crc pl blob s) (a : Act
         · simp only; split <;> rfl
       · rfl
     rw [hthreads] at hu
-    exact (hr b u hu).mono (fun i h => complete_mono hg .reopen (by intro h'; cases h') i h)
+    exact (hr b u hu).mono (fun i h => complete_mono hg .reopen rfl i h)
   | recreate =>
     simp only [step]
     split
     · exact RTAll_init _
+    · exact hr
+  | tornReopen n =>
+    simp only [step]
+    split
+    · rename_i hq
+      split
+      · intro b u hu
+        have hthreads : (openTorrent s).threads = s.threads := by
+          rw [openTorrent_eq_core hg]; unfold openTorrentCore; split
+          · rfl
+          · simp only; split <;> rfl
+        rw [hthreads] at hu
+        exact (hr b u hu).mono (fun i h => complete_mono hg .reopen rfl i (by simpa [step, hq.1] using h) |> fun x => by simpa [step, hq.1] using x)
+      · intro b u hu
+        have : (openTorrent { s with status := s.status.take n ++ List.replicate (n - s.status.length) 0, threads := [] }).threads = [] := by
+          unfold openTorrent
+          split <;> (unfold openTorrentCore; split; rfl; simp only; split <;> rfl)
+        rw [this] at hu; simp at hu
     · exact hr
 
 end KrakenModel.Proof.C03
